@@ -7,9 +7,11 @@
        checkout_conv ac chunks = Some (git_checkout ac (concat chunks))
     /\ add_conv ac chunks      = Some (git_add ac prior (concat chunks))
     /\ (checkout_conv ac c1 = Some f -> concat c2 = f -> add_conv ac c2 = Some (concat c1))
-   It is FALSE of the faithful model (theorems *_refuted below, witnesses
-   replayed on the implementation: findings mixed-checkout, add-index-crlf);
-   the *_partial theorems are the strongest true parts, under boolean guards. *)
+   The first conjunct is proved in full (C31_checkout_eq_git, after the repair of
+   the mixed-line-ending defect).  The second and third are FALSE of the faithful
+   model (theorems *_refuted below, witnesses replayed on the implementation:
+   finding add-index-crlf); the *_partial theorems are the strongest true parts,
+   under boolean guards. *)
 From Coq Require Import List NArith Bool String.
 From GoGit Require Import Base.Out Model.Eol Spec.GitConvert
   Proofs.C31Stat Proofs.C31Writers Proofs.C31Flows.
@@ -86,18 +88,15 @@ Theorem C31_crlf_nocr : forall chunks,
 Proof. exact crlf_writer_nocr. Qed.
 Print Assumptions C31_crlf_nocr.
 
-(* --- checkout equals git for every autocrlf and every chunking unless the
-   blob is text with both CRLF and lone LF *)
-Theorem C31_checkout_eq_git_partial : forall ac chunks,
-  short (List.concat chunks) = true -> mixed (List.concat chunks) = false ->
+(* --- checkout equals git for every content, every autocrlf and every
+   chunking of the copy (FULL; holds since the repair "fix: leave content that
+   already has CRLF untouched on autocrlf checkout" — before it, text with both
+   CRLF and lone LF, e.g. "a\r\nb\nc\n", had its lone LFs converted) *)
+Theorem C31_checkout_eq_git : forall ac chunks,
+  short (List.concat chunks) = true ->
   checkout_conv ac chunks = Some (git_checkout ac (List.concat chunks)).
 Proof. exact checkout_eq_git. Qed.
-Print Assumptions C31_checkout_eq_git_partial.
-
-Theorem C31_checkout_mixed_refuted : exists blob,
-  checkout_conv ACTrue [blob] <> Some (git_checkout ACTrue blob).
-Proof. exists [97; 13; 10; 98; 10; 99; 10]. vm_compute. discriminate. Qed.
-Print Assumptions C31_checkout_mixed_refuted.
+Print Assumptions C31_checkout_eq_git.
 
 (* --- add equals git unless the staged blob has CRLF and the file is text with CRLF *)
 Theorem C31_add_eq_git_partial : forall ac prior chunks,
@@ -143,12 +142,12 @@ Print Assumptions C31_node_size.
 (* guards are satisfiable by interesting content: LF text, pure CRLF text, binary *)
 Example C31_guards_inhabited :
   let lf := [97; 10; 98; 10] in let crlf := [97; 13; 10; 98; 13; 10] in let bin := [97; 13; 98; 0; 10] in
-  short lf = true /\ mixed lf = false /\ mixed crlf = false /\ mixed bin = false /\
+  short lf = true /\ short bin = true /\
   text_crlf lf = false /\ text_crlf crlf = true /\ short2 crlf = true /\
   lcf crlf = true /\ has_cr lf = false /\
   checkout_conv ACTrue [[97; 10]; [98; 10]] = Some [97; 13; 10; 98; 13; 10] /\
   add_conv ACInput [[97; 13]; [10; 98; 13; 10]] = Some lf /\
-  mixed [97; 13; 10; 98; 10] = true.
+  checkout_conv ACTrue [[97; 13]; [10; 98; 10]] = Some [97; 13; 10; 98; 10].
 Proof. vm_compute. repeat split; reflexivity. Qed.
 
 (* GetStat trusts its reader: an answer (1, io.EOF) loses the byte, and a
